@@ -144,6 +144,10 @@ def entries():
     E["body.text_at"] = lambda d, i=0: d.body.text_at(0, 20)
     E["body.replace(count)"] = lambda d, i=0: d.body.replace("a")
     E["body.replace(count,regex)"] = lambda d, i=0: d.body.replace(r"\w+")
+    E["body.replace(count,formatted)"] = lambda d, i=0: d.body.replace(r"[a-z]+", formatted=True)
+    E["body.replace(count,None,formatted)"] = lambda d, i=0: d.body.replace(" ", None, True)
+    E["paragraph.replace(count,formatted)"] = with_each("descendant::text:p|descendant::text:h", lambda p: p.replace(r"\w", formatted=True))
+    E["span.replace(count,formatted)"] = with_each("descendant::text:span", lambda p: p.replace(r".", formatted=True))
     E["body.serialize"] = lambda d, i=0: d.body.serialize()
     E["body.serialize(pretty)"] = lambda d, i=0: d.body.serialize(pretty=True)
     E["body.serialize(with_ns)"] = lambda d, i=0: len(d.body.serialize(with_ns=True))
@@ -403,8 +407,7 @@ def run_shard(ctx):
         def t(case):
             try:
                 run_case(case, ctx)
-                if ctx.evaluations % 2003 < 12 and len(ctx.samples) < 3:
-                    ctx.sample(case)
+                ctx.maybe_sample(case, 2000)
             except Abandon:
                 pass
         return t
